@@ -28,7 +28,8 @@ struct State {
   // live set (open addressing would be faster; sizes here are tiny)
   Entry *live = nullptr;
   size_t nlive = 0, cap = 0;
-  void (*on_free)(void *, size_t) = nullptr;
+  void (*on_free)(void *, size_t) = nullptr;      // tracked blocks only
+  void (*on_free_all)(void *, size_t) = nullptr;  // every free() issued while armed (untracked blocks: malloc_usable_size)
   bool busy = false;  // re-entrancy guard for the bookkeeping itself
 };
 inline State &S() {
@@ -55,6 +56,7 @@ inline void reset() {
   s.live_at_first_failure = -1;
   s.nlive = 0;
   s.on_free = nullptr;
+  s.on_free_all = nullptr;
 }
 inline size_t live_count() { return S().nlive; }
 inline size_t live_bytes() {
@@ -152,6 +154,7 @@ void __wrap_free(void *p) {
   aw::State &s = aw::S();
   if (p) {
     long i = aw_find(p);
+    if (s.armed && s.on_free_all) s.on_free_all(p, i >= 0 ? s.live[i].n : malloc_usable_size(p));
     if (i >= 0) {
       if (s.on_free) s.on_free(p, s.live[i].n);
       s.live[i] = s.live[--s.nlive];
